@@ -144,6 +144,7 @@ func init() {
 					mk("c01-empty", [][]world.Op{nil}, []int{6, 2, 2, 4, 0}, 9),
 					mk("c01-staked", [][]world.Op{staked}, []int{5, 2, 2, 4, 0}, 8),
 					unionScenario("C01", "c01-union", tier, c01Step, func(w *world.World, root *engine.Node) engine.Ref { return &giftRef{gift: map[string]math.Int{}} }),
+					unionFullScenario("C01", "c01-union-full-pipeline", tier, c01Step, func(w *world.World, root *engine.Node) engine.Ref { return &giftRef{gift: map[string]math.Int{}} }, 7),
 				}
 			}
 			union := unionScenario("C01", "c01-union", tier, c01Step, func(w *world.World, root *engine.Node) engine.Ref { return &giftRef{gift: map[string]math.Int{}} })
@@ -151,6 +152,7 @@ func init() {
 				mk("c01-empty", [][]world.Op{nil}, []int{4, 1, 1, 3, 0}, 5),
 				mk("c01-staked", [][]world.Op{staked}, []int{3, 1, 1, 3, 0}, 4),
 				union,
+				unionFullScenario("C01", "c01-union-full-pipeline", tier, c01Step, func(w *world.World, root *engine.Node) engine.Ref { return &giftRef{gift: map[string]math.Int{}} }, 4),
 			}
 		},
 		Assumptions: []string{
